@@ -9,6 +9,7 @@
 import DdnnfVerif.Proofs.Keystone
 import DdnnfVerif.Proofs.LoadSem
 import DdnnfVerif.Proofs.LoadWF2_14
+import DdnnfVerif.Proofs.D4Conv
 namespace Ddnnf.C01
 
 /-- The reported count (`Ddnnf::rc()` = count of the last node) is the number of assignments to
@@ -120,5 +121,26 @@ theorem d4_count_is_number_of_models_of_the_text (lines : List D4.Line) (total :
 /-- the hypotheses are satisfiable: `o 1 0 / t 2 0 / 1 2 1 0 / 1 2 -1 0` with two features (feature 2
 free) loads to a well-formed array -/
 example : WF (D4.load D4.exLines 2).2.1 (D4.load D4.exLines 2).1 := D4.ex_wf
+
+/-! ### the d4 conventions as an executable check (Model/D4Conv.lean)
+
+`D4.conventionsB lines total` decides all hypotheses of the two theorems above on a concrete text of at
+most ten features (acyclicity by longest-path relaxation, decomposability by mentioned-variable sets,
+determinism and satisfiability by truth table).  The driver evaluates it on every generated d4 input and
+reports how many inputs the loader theorem applies to. -/
+
+/-- a text that passes the check loads to a well-formed array … -/
+theorem d4_conventions_check_is_sound (lines : List D4.Line) (total : Nat)
+    (h : D4.conventionsB lines total = true) :
+    WF (D4.load lines total).2.1 (D4.load lines total).1 :=
+  D4.conventionsB_sound lines total h
+
+/-- … whose count is the number of satisfying assignments of the text (evaluated by `D4.evalB`) -/
+theorem d4_conventions_check_gives_the_count (lines : List D4.Line) (total : Nat)
+    (h : D4.conventionsB lines total = true) :
+    count (D4.load lines total).2.1 (rootIx (D4.load lines total).2.1) =
+      ((allBits (D4.load lines total).1).filter fun b =>
+        D4.evalB (assignOf b) (D4.phase1B lines total).g ((D4.phase1B lines total).g.kind.size + 1) 0).length :=
+  D4.conventionsB_count lines total h
 
 end Ddnnf.C01
